@@ -20,6 +20,8 @@ TABLE = {
     "vaporetto::model::Model::new": {"0": {"char_ngram_model": 1, "type_ngram_model": 2, "dict_model": 3, "bias": 4, "char_window_size": 5,
                                            "type_window_size": 6, "tag_models": 7}},
 }
+PW_FROM = "<vaporetto::predictor::PositionalWeight as core::convert::From<vaporetto::predictor::PositionalWeight>>::from"
+TABLE[PW_FROM] = {"offset": ("argfield", "arg1.offset"), "weight": ("into-argfield", "arg1.weight")}
 ALLOWED_CALLS = ("Into<U>>::into", "From<T>>::from", "HashMap::new", "HashMap::default", "PositionalWeight::new", "::default")
 
 
@@ -29,6 +31,14 @@ def _match(it, o, v, spec, calls):
     if isinstance(spec, dict):
         return v[0] == "agg" and dict(v[2]).keys() == spec.keys() and all(_match(it, o, dict(v[2])[k], s, calls) for k, s in spec.items())
     kind = spec[0]
+    if kind == "argfield":
+        return it.resolve(o, v) == absint.SYM(spec[1])
+    if kind == "into-argfield":
+        v = it.resolve(o, v)
+        if v[0] != "sym" or not v[1].startswith("ret:"):
+            return False
+        e = [c for c in calls if c[1] == int(v[1][4:])]
+        return bool(e) and ("Into<" in (e[0][2] or "") or "From<" in (e[0][2] or "")) and tuple(it.resolve(o, a) for a in e[0][3]) == (absint.SYM(spec[1]),)
     if kind == "into":
         if v[0] != "sym" or not v[1].startswith("ret:"):
             return False
